@@ -37,7 +37,7 @@ type c20Case struct {
 	Root    int        `json:"root"`
 	Shape   []string   `json:"shape"` // nest: container kinds from the outside in: "s" slice, "m" map, "p" pointer, "i" interface
 	Repeat  int        `json:"repeat"`
-	Leaf    string     `json:"leaf"` // nest: what sits innermost: "" an int; empty containers of several types otherwise
+	Leaf    string     `json:"leaf"`    // nest: what sits innermost: "" an int; empty containers of several types otherwise
 	Opt     string     `json:"opt"`     // awk: option set
 	Calls   int        `json:"calls"`   // awk: calls made
 	Panics  [][]string `json:"panics"`  // awk: [call, panic text]
